@@ -22,6 +22,7 @@ static inline void ythread_callback_yield_impl(void *arg,
                                                ABT_pool_context context)
 {
     ABTI_ythread *p_prev = (ABTI_ythread *)arg;
+    ABTI_VERIF_POINT(ABTI_VERIF_P_YIELD_SAVED);
     if (ABTI_thread_handle_request(&p_prev->thread, ABT_TRUE) &
         ABTI_THREAD_HANDLE_REQUEST_CANCELLED) {
         /* p_prev is terminated. */
@@ -108,9 +109,11 @@ void ABTI_ythread_callback_suspend(void *arg)
     ABTI_pool_inc_num_blocked(p_prev->thread.p_pool);
     /* Request handling.  p_prev->thread.p_pool might be changed. */
     ABTI_thread_handle_request(&p_prev->thread, ABT_FALSE);
+    ABTI_VERIF_POINT(ABTI_VERIF_P_SUSPEND_BEFORE_BLOCKED);
     /* Set this thread's state to BLOCKED. */
     ABTD_atomic_release_store_int(&p_prev->thread.state,
                                   ABT_THREAD_STATE_BLOCKED);
+    ABTI_VERIF_POINT(ABTI_VERIF_P_SUSPEND_AFTER_BLOCKED);
 }
 
 void ABTI_ythread_callback_resume_suspend_to(void *arg)
@@ -131,9 +134,11 @@ void ABTI_ythread_callback_resume_suspend_to(void *arg)
     }
     /* Request handling.  p_prev->thread.p_pool might be changed. */
     ABTI_thread_handle_request(&p_prev->thread, ABT_FALSE);
+    ABTI_VERIF_POINT(ABTI_VERIF_P_SUSPEND_BEFORE_BLOCKED);
     /* Set this thread's state to BLOCKED. */
     ABTD_atomic_release_store_int(&p_prev->thread.state,
                                   ABT_THREAD_STATE_BLOCKED);
+    ABTI_VERIF_POINT(ABTI_VERIF_P_SUSPEND_AFTER_BLOCKED);
 }
 
 void ABTI_ythread_callback_exit(void *arg)
@@ -171,9 +176,11 @@ void ABTI_ythread_callback_suspend_unlock(void *arg)
     ABTI_pool_inc_num_blocked(p_prev->thread.p_pool);
     /* Request handling.  p_prev->thread.p_pool might be changed. */
     ABTI_thread_handle_request(&p_prev->thread, ABT_FALSE);
+    ABTI_VERIF_POINT(ABTI_VERIF_P_SUSPEND_BEFORE_BLOCKED);
     /* Set this thread's state to BLOCKED. */
     ABTD_atomic_release_store_int(&p_prev->thread.state,
                                   ABT_THREAD_STATE_BLOCKED);
+    ABTI_VERIF_POINT(ABTI_VERIF_P_SUSPEND_AFTER_BLOCKED);
     /* Release the lock. */
     ABTD_spinlock_release(p_lock);
 }
@@ -190,9 +197,11 @@ void ABTI_ythread_callback_suspend_join(void *arg)
     ABTI_pool_inc_num_blocked(p_prev->thread.p_pool);
     /* Request handling.  p_prev->thread.p_pool might be changed. */
     ABTI_thread_handle_request(&p_prev->thread, ABT_FALSE);
+    ABTI_VERIF_POINT(ABTI_VERIF_P_SUSPEND_BEFORE_BLOCKED);
     /* Set this thread's state to BLOCKED. */
     ABTD_atomic_release_store_int(&p_prev->thread.state,
                                   ABT_THREAD_STATE_BLOCKED);
+    ABTI_VERIF_POINT(ABTI_VERIF_P_SUSPEND_AFTER_BLOCKED);
     /* Set the link in the context of the target ULT. This p_link might be
      * read by p_target running on another ES in parallel, so release-store
      * is needed here. */
@@ -212,9 +221,11 @@ void ABTI_ythread_callback_suspend_replace_sched(void *arg)
     ABTI_pool_inc_num_blocked(p_prev->thread.p_pool);
     /* Request handling.  p_prev->thread.p_pool might be changed. */
     ABTI_thread_handle_request(&p_prev->thread, ABT_FALSE);
+    ABTI_VERIF_POINT(ABTI_VERIF_P_SUSPEND_BEFORE_BLOCKED);
     /* Set this thread's state to BLOCKED. */
     ABTD_atomic_release_store_int(&p_prev->thread.state,
                                   ABT_THREAD_STATE_BLOCKED);
+    ABTI_VERIF_POINT(ABTI_VERIF_P_SUSPEND_AFTER_BLOCKED);
     /* Ask the current main scheduler to replace its scheduler */
     ABTI_sched_set_request(p_main_sched, ABTI_SCHED_REQ_REPLACE);
 }
